@@ -249,6 +249,16 @@ def r14_2_index_kinds(ctx, rule: str = 'R14.2', rule_enum: str = 'R06.1', rule_s
                 ks = classify_pairs(sc, n.value, rule_enum, obs, lambda ff: _order_sensitive(ctx, wm, ff), rule)
                 if ks:
                     sc.pairs[n.targets[0].id] = (ks[0], ks[1], n)
+        # ... and pair comprehensions that a loop runs over directly: `for a, b in [(..) for .. for ..]`
+        comp_iters: Dict[int, str] = {}
+        for n in ast.walk(f.node):
+            if isinstance(n, ast.For) and isinstance(n.iter, ast.ListComp) and isinstance(n.iter.elt, ast.Tuple) \
+                    and len(n.iter.generators) == 2:
+                ks = classify_pairs(sc, n.iter, rule_enum, obs, lambda ff: _order_sensitive(ctx, wm, ff), rule)
+                if ks:
+                    key = f"<pairs of the loop at +{n.lineno - f.node.lineno}>"
+                    sc.pairs[key] = (ks[0], ks[1], n)
+                    comp_iters[id(n.iter)] = key
         nested_loops = []
         if not sc.pairs:
             # the same enumeration written as two nested loops: bring it into the form of a pair comprehension
@@ -323,8 +333,8 @@ def r14_2_index_kinds(ctx, rule: str = 'R14.2', rule_enum: str = 'R06.1', rule_s
         kinds: Dict[str, str] = {}
         loops = []
         for n in ast.walk(f.node):
-            if isinstance(n, ast.For) and isinstance(n.iter, ast.Name) and n.iter.id in pair_alias:
-                k1, k2, _ = sc.pairs[pair_alias[n.iter.id]]
+            if isinstance(n, ast.For) and ((isinstance(n.iter, ast.Name) and n.iter.id in pair_alias) or id(n.iter) in comp_iters):
+                k1, k2, _ = sc.pairs[pair_alias[n.iter.id] if isinstance(n.iter, ast.Name) else comp_iters[id(n.iter)]]
                 tg = n.target
                 if isinstance(tg, ast.Tuple) and len(tg.elts) == 2 and all(isinstance(e, ast.Name) for e in tg.elts):
                     kinds[tg.elts[0].id] = k1
